@@ -1176,6 +1176,8 @@ def name_to_class_map(name):
         "classical x": ClassicalCNOT,
         "classical z": ClassicalCZ,
         "classical reset x": MeasurementCNOTandReset,
+        "id": Identity,
+        "measure z": MeasurementZ,
     }
     if name in mapping:
         return mapping[name]
@@ -1201,6 +1203,9 @@ def class_to_name_mapping(class_op):
         ClassicalCNOT: "classical x",
         ClassicalCZ: "classical z",
         MeasurementCNOTandReset: "classical reset x",
+        Identity: "id",
+        PhaseDagger: "sdg",
+        MeasurementZ: "measure z",
     }
     if class_op in mapping:
         return mapping[class_op]
